@@ -10,7 +10,7 @@ from . import common
 PROP = "C08"
 LEANCHECK_MODULES = ["Ivy.L2.Event", "Ivy.L2.EventProofs", "Ivy.Props.C08"]
 HARNESS = os.path.join(common.BUILD, "mt_c08_h")
-RUN_TIMEOUT = 10
+RUN_TIMEOUT = 75
 INTERESTING = ("post-appended-nokick", "post-coalesced", "recheck-batch-emptied", "steal-many", "raw-read-raced-write",
                "unregister-queued", "self-post-task")
 
